@@ -26,6 +26,7 @@ RULE = (
 )
 ASSUMPTIONS = c01.ASSUMPTIONS + ["binary layouts are contiguous after the identifier (the property's domain)", "identifiers are ASCII literal text without surrounding blanks"]
 TRUSTED = []
+NOT_THEOREMS = ['Spec.C10.holds (recognition, one line, exact width, canonical read-back, tell() partial sums): evaluated per case in the three storages']
 EXHAUSTIVE = {"quick": False, "thorough": False}
 
 
